@@ -122,7 +122,7 @@ func c05main(c *Ctx) {
 		}
 		culprits, residual := explain(cs, run)
 		for _, cu := range culprits {
-			c.R.Violation(idx, "attribute-alone", "C05/alone/"+cu, "a record with only this attribute already fails: "+viols[0].detail+"\npayload: "+q(clip(string(payload), 1500)), desc)
+			c.R.Violation(idx, "attribute-alone", "C05/alone/"+cu.class, cu.detail, desc)
 		}
 		for _, v := range residual {
 			c.R.Violation(idx, v.clause, "C05/"+v.clause+"/"+v.feature, v.detail+"\npayload: "+q(clip(string(payload), 1500)), desc)
